@@ -114,15 +114,16 @@ CLAIMS = {
               "left at the head, the other queue and other resources' requests are untouched, and the queue object keeps its class "
               "(representation obligation: a priority-sorted queue is never replaced by a plain list); Put/Get.__init__: the new request joins "
               "the end of its queue, is granted in the same call iff it reaches the head and is grantable, registers the inverse trigger as its "
-              "callback; Put/Get.cancel: a pending request leaves the queue and nothing else moves, cancelling twice or after the grant changes nothing and never raises.",
+              "callback; the typed constructors ContainerPut/ContainerGet/StorePut/Release.__init__ (amount <= 0 raises ValueError and queues nothing; they are "
+              "the call sites at which the typed-queue preconditions of Put/Get.__init__ are proved) and the public operations Container.put/get, "
+              "Store.put/get, Resource.request/release carry the same whole-queue postconditions; Put/Get.cancel: a pending request leaves the queue and nothing else moves, cancelling twice or after the grant changes nothing and never raises.",
               "Assumed interfaces (usim.py.events / core are not under contract, property C18): Event.__init__, Event.succeed (marks the event "
               "granted with its value, touches no resource state), Event.triggered, Environment.now; no class derives from both Put and Get. "
               "Capacities and amounts are reals (float('inf') an unconstrained positive constant): 'never more than capacity' is proved as "
               "'< capacity + 1', i.e. exact for whole-number capacities. NOT under contract (so not decided): PriorityStore and FilterStore "
               "(_do_put/_do_get use sortedcontainers / a user filter; FilterStore's head-of-line blocking, DESIGN 12.13/D10, is a confirmed "
               "defect that no obligation decides), PreemptiveResource._do_put (eviction, Preempted details), SortedQueue ordering itself "
-              "(sortedcontainers), Request.__exit__/release wrappers, that callbacks run within the time step (C18), ContainerPut/"
-              "StorePut/Release constructors (the typed-queue preconditions of Put/Get.__init__ are checked at no call site).", "12.13"),
+              "(sortedcontainers), PriorityRequest.__init__, Request.__exit__, that callbacks run within the time step (C18).", "12.13"),
  "C20": claim("Suspension counters: at least one suspension on every normal-completion path (per step for async generators) of "
               "postpone, suspend, Notification/Condition/After/Before/Moment/Instant awaits, Flag.set, Task.__await__, Scope.__await__, "
               "Queue.put/close/_await_message, Channel.put/close/__await__, Pipe.transfer, UnboundedPipe.transfer, interval, delay, Scope._await_children.",
